@@ -46,5 +46,5 @@ def queries(tier):
                      bound=f"every history of {k} steps over {{post, poll, release any held}}, pool of {nobj} output headers, then drain", what="exactly-once in-order delivery, accurate 'empty' answers, back-pressure only when all headers are out, pool whole after drain")
     qs.append(hist(4))
     if tier == "thorough":
-        qs.append(hist(6, 2, 3000))
+        qs.append(hist(6, 2, 3000, "minisat"))   # measured: 9 min with minisat; cadical did not finish in 40 min on this instance
     return qs
